@@ -83,4 +83,10 @@ example : Gen.tr_WidthForInt (fun _ => 0) 2 9 = 1 ∧ Gen.tr_WidthForInt (fun _ 
     Gen.tr_WidthForInt (fun _ => 0) 2 99999 = 5 ∧ Gen.tr_WidthForInt (fun _ => 0) 2 (-42) = 3 ∧
     widthForInt 99999 = 5 := by decide
 
+/-- FAIL CLOSED (second audit pass, X2/X3): the tie theorems of this file are about the
+definition(s) TRANSLATED FROM THE TREE UNDER TEST, not about the committed default the
+extractor falls back to when the source leaves the translated subset – in that
+case this obligation breaks and `./check` reports it (besides the note). -/
+theorem translated_from_tree_under_test : Gen.tr_WidthForInt_extracted = true := by decide
+
 end Props.C11
